@@ -1,29 +1,81 @@
-(* TokValid.v — parse_valid (C01): parsing the rendering of a syntax tree yields exactly
-   the value the tree denotes, in both modes, for every tree of the sub-grammar [covered]. *)
-From JC Require Import Base BaseLemmas Value TokModel TokProofs TokSyntax TokValidBase TokValidLit.
+(* TokValid.v — parse_valid (C01): parsing the rendering of an RFC 8259 syntax tree with
+   json_tokener_parse_ex (NUL-terminated, default or strict mode) yields exactly the
+   value the tree denotes, consumes exactly the text and reports success — for every
+   well-formed tree whose nesting fits the configured depth, whose integer tokens fit
+   64 bits and whose member names are free of U+0000. *)
+From JC Require Import Base BaseLemmas Value TokModel TokProofs TokSyntax
+  TokValidBase TokValidLit TokValidNum TokValidStr TokValidObj.
 Local Open Scope Z_scope.
 
 (* ---------------------------------------------------------------- the proved sub-grammar *)
+(* the sub-grammar for which the value lemma is proved: by now, all of it *)
 Fixpoint covered (s : stx) : bool :=
   match s with
   | SLit _ => true
+  | SNum _ => true
+  | SStr _ => true
   | SArr _ es => forallb (fun x : ws * stx * ws => covered (el_val x)) es
-  | _ => false
+  | SObj _ ms => forallb (fun m : ws * list schar * ws * ws * stx * ws => covered (m_val m)) ms
   end.
+
+Lemma covered_all s : covered s = true.
+Proof.
+  induction s as [l|n|cs|w es IH|w ms IH] using stx_ind'; try reflexivity.
+  - cbn [covered]. apply forallb_forall. rewrite Forall_forall in IH. exact IH.
+  - cbn [covered]. apply forallb_forall. rewrite Forall_forall in IH. exact IH.
+Qed.
 
 (* ---------------------------------------------------------------- renderings are NUL-free *)
 Definition nonul (l : list byte) : bool := forallb (fun b => negb (b =? 0)) l.
 Lemma nonul_app a b : nonul (a ++ b) = nonul a && nonul b.
 Proof. apply forallb_app. Qed.
+Lemma nonul_cons x a : nonul (x :: a) = negb (x =? 0) && nonul a.
+Proof. reflexivity. Qed.
 Lemma nonul_ws w : all_ws w = true -> nonul w = true.
 Proof.
   unfold nonul, all_ws. rewrite !forallb_forall. intros H b Hb. specialize (H b Hb). unfold is_ws in H. lia.
+Qed.
+Lemma nonul_digits ds : all_digits ds = true -> nonul ds = true.
+Proof.
+  unfold nonul, all_digits. rewrite !forallb_forall. intros H b Hb. specialize (H b Hb). unfold is_digit in H. lia.
 Qed.
 Lemma upto_nul_nonul l : nonul l = true -> upto_nul l = l ++ [0].
 Proof.
   induction l as [|b l IH]; [reflexivity|]. cbn [nonul forallb upto_nul]. intros H. apply andb_true_iff in H. destruct H as [H1 H2].
   destruct (b =? 0); [discriminate|]. rewrite (IH H2). reflexivity.
 Qed.
+
+Lemma nonul_num n : wf_num n = true -> nonul (render_num n) = true.
+Proof.
+  destruct n as [neg ip fr ex]. unfold wf_num, render_num. cbn [n_neg n_int n_frac n_exp]. intros H.
+  apply andb_true_iff in H. destruct H as [H Hex]. apply andb_true_iff in H. destruct H as [Hip Hfr].
+  destruct (wf_int_facts ip Hip) as (_ & Hd & _).
+  pose proof (wf_frac_facts fr Hfr) as Ffr. pose proof (wf_exp_facts ex Hex) as Fex.
+  rewrite !nonul_app, (nonul_digits ip Hd).
+  assert (E1 : nonul (if neg then [45] else []) = true) by (destruct neg; reflexivity).
+  assert (E2 : nonul (render_frac fr) = true).
+  { destruct fr as [fd|]; [|reflexivity]. cbn [render_frac]. rewrite nonul_cons, (nonul_digits fd (proj1 Ffr)). reflexivity. }
+  assert (E3 : nonul (render_exp ex) = true).
+  { destruct ex as [[[ec sg] ed]|]; [|reflexivity]. destruct Fex as (Hec & Hsg & Hed & _). cbn [render_exp].
+    rewrite nonul_cons, nonul_app, (nonul_digits ed Hed).
+    destruct sg as [s0|]; cbn [nonul forallb]; lia. }
+  rewrite E1, E2, E3. reflexivity.
+Qed.
+
+Lemma nonul_chars cs : wf_chars cs = true -> nonul (render_chars cs) = true.
+Proof.
+  induction cs as [|ch r IH]; [reflexivity|]. cbn [wf_chars forallb]. intros H.
+  apply andb_true_iff in H. destruct H as [Hc Hr].
+  change (render_chars (ch :: r)) with (render_schar ch ++ render_chars r). rewrite nonul_app, (IH Hr), andb_true_r.
+  destruct ch as [b|e|d1 d2 d3 d4]; cbn [render_schar wf_schar] in *.
+  - cbn [nonul forallb]. lia.
+  - destruct e; reflexivity.
+  - apply andb_true_iff in Hc. destruct Hc as [Hc H4]. apply andb_true_iff in Hc. destruct Hc as [Hc H3].
+    apply andb_true_iff in Hc. destruct Hc as [H1 H2].
+    apply is_hex_cases in H1, H2, H3, H4. cbn [nonul forallb]. lia.
+Qed.
+Lemma nonul_str cs : wf_chars cs = true -> nonul (render_str cs) = true.
+Proof. intros H. unfold render_str. rewrite nonul_cons, nonul_app, (nonul_chars cs H). reflexivity. Qed.
 
 Lemma nonul_elems es :
   Forall (fun x => wf_stx (el_val x) -> nonul (render (el_val x)) = true) es ->
@@ -35,22 +87,39 @@ Proof.
   apply andb_true_iff in Hwe. destruct Hwe as [Hwe Hwb]. apply andb_true_iff in Hwe. destruct Hwe as [Hwa Hwe].
   cbn [render_elems render_el]. rewrite !nonul_app. rewrite (nonul_ws a Hwa), (nonul_ws b Hwb).
   unfold el_val in He; cbn [fst snd] in He. rewrite (He Hwe). cbn [andb].
-  destruct r as [|y r]; [reflexivity|]. specialize (IH Hr Hwr). cbn [nonul forallb] in *. exact IH.
+  destruct r as [|y r]; [reflexivity|]. specialize (IH Hr Hwr). rewrite nonul_cons. exact IH.
 Qed.
 
-Lemma render_nonul s : covered s = true -> wf_stx s -> nonul (render s) = true.
+Lemma nonul_mems ms :
+  Forall (fun m => wf_stx (m_val m) -> nonul (render (m_val m)) = true) ms ->
+  forallb mem_ok ms = true -> nonul (render_mems ms) = true.
 Proof.
-  induction s as [l|n|cs|w es IH|w ms IH] using stx_ind'; intros Hc Hw; try discriminate.
+  induction ms as [|[[[[[a k] b] cw] v] d] r IH]; [reflexivity|]. intros HF Hwf.
+  inversion HF as [|? ? He Hr]; subst. cbn [forallb mem_ok] in Hwf.
+  apply andb_true_iff in Hwf. destruct Hwf as [Hwm Hwr].
+  apply andb_true_iff in Hwm. destruct Hwm as [Hwm Hwd]. apply andb_true_iff in Hwm. destruct Hwm as [Hwm Hwv].
+  apply andb_true_iff in Hwm. destruct Hwm as [Hwm Hwc]. apply andb_true_iff in Hwm. destruct Hwm as [Hwm Hwb].
+  apply andb_true_iff in Hwm. destruct Hwm as [Hwa Hwk].
+  cbn [render_mems render_mem]. unfold m_val in He; cbn [fst snd] in He.
+  rewrite !nonul_app, nonul_cons, !nonul_app.
+  rewrite (nonul_ws a Hwa), (nonul_ws b Hwb), (nonul_ws cw Hwc), (nonul_ws d Hwd), (nonul_str k Hwk), (He Hwv). cbn [andb negb Z.eqb].
+  destruct r as [|y r]; [reflexivity|]. specialize (IH Hr Hwr). rewrite nonul_cons. exact IH.
+Qed.
+
+Lemma render_nonul s : wf_stx s -> nonul (render s) = true.
+Proof.
+  induction s as [l|n|cs|w es IH|w ms IH] using stx_ind'; intros Hw.
   - destruct l; reflexivity.
+  - apply nonul_num. exact Hw.
+  - apply nonul_str. exact Hw.
   - unfold wf_stx in Hw. cbn [wf_stxb] in Hw. apply andb_true_iff in Hw. destruct Hw as [Hw Hes].
     destruct es as [|y r].
-    + cbn [render]. cbn [nonul forallb]. change (forallb (fun b => negb (b =? 0)) (w ++ [93])) with (nonul (w ++ [93])).
-      rewrite nonul_app, (nonul_ws w Hw). reflexivity.
-    + rewrite render_arr_cons. cbn [nonul forallb].
-      change (forallb (fun b => negb (b =? 0)) (render_elems (y :: r))) with (nonul (render_elems (y :: r))).
-      rewrite nonul_elems; [reflexivity| |exact Hes].
-      cbn [covered] in Hc. rewrite forallb_forall in Hc. rewrite Forall_forall in IH |- *.
-      intros x Hx Hwx. apply IH; [exact Hx|apply Hc; exact Hx|exact Hwx].
+    + cbn [render]. rewrite nonul_cons, nonul_app, (nonul_ws w Hw). reflexivity.
+    + rewrite render_arr_cons, nonul_cons. apply (nonul_elems (y :: r) IH Hes).
+  - unfold wf_stx in Hw. cbn [wf_stxb] in Hw. apply andb_true_iff in Hw. destruct Hw as [Hw Hms].
+    destruct ms as [|y r].
+    + cbn [render]. rewrite nonul_cons, nonul_app, (nonul_ws w Hw). reflexivity.
+    + rewrite render_obj_cons, nonul_cons. apply (nonul_mems (y :: r) IH Hms).
 Qed.
 
 Section S.
@@ -60,8 +129,10 @@ Variable sb : list byte -> Z.
 Lemma value_ok c s :
   wf_stx s -> covered s = true -> ints_in_range s = true -> names_nul_free s = true -> val_ok sb c s.
 Proof.
-  induction s as [l|n|cs|w es IH|w ms IH] using stx_ind'; intros Hw Hc Hi Hn; try discriminate.
+  induction s as [l|n|cs|w es IH|w ms IH] using stx_ind'; intros Hw Hc Hi Hn.
   - apply lit_ok.
+  - apply num_ok; [exact Hw|exact Hi].
+  - apply str_ok. exact Hw.
   - apply arr_ok; [exact Hw|].
     unfold wf_stx in Hw. cbn [wf_stxb covered ints_in_range names_nul_free] in *.
     apply andb_true_iff in Hw. destruct Hw as [_ Hw].
@@ -72,6 +143,16 @@ Proof.
     + apply (Hc _ Hx).
     + apply (Hi _ Hx).
     + apply (Hn _ Hx).
+  - apply obj_ok; [exact Hw|exact Hn|].
+    unfold wf_stx in Hw. cbn [wf_stxb covered ints_in_range names_nul_free] in *.
+    apply andb_true_iff in Hw. destruct Hw as [_ Hw].
+    rewrite forallb_forall in Hw, Hc, Hi, Hn. rewrite Forall_forall in IH |- *.
+    intros [[[[[a k] b] cw] v] d] Hx. apply (IH _ Hx).
+    + specialize (Hw _ Hx). cbn in Hw. unfold wf_stx, m_val. cbn [fst snd].
+      apply andb_true_iff in Hw. destruct Hw as [Hw _]. apply andb_true_iff in Hw. destruct Hw as [_ Hw]. exact Hw.
+    + apply (Hc _ Hx).
+    + apply (Hi _ Hx).
+    + specialize (Hn _ Hx). apply andb_true_iff in Hn. apply Hn.
 Qed.
 
 (* ---------------------------------------------------------------- the whole call *)
@@ -126,4 +207,39 @@ Proof.
   - apply render_nonul; assumption.
 Qed.
 
+(* the whole of RFC 8259 *)
+Theorem parse_valid D strictf s lead trail t :
+  wf_stx s -> all_ws lead = true -> all_ws trail = true ->
+  Z.of_nat (nest s) < D -> ints_in_range s = true -> names_nul_free s = true ->
+  tok_new D strictf false false = Some t ->
+  exists t', parse_ex_cstr sb t (render_doc lead s trail) = PR t' (Some (value sb s)) /\
+             err t' = TE_success /\ char_offset t' = zlen (render_doc lead s trail).
+Proof.
+  intros Hw Hl Ht Hd Hi Hn Hnew. apply (parse_valid_covered D strictf); auto. apply covered_all.
+Qed.
+
 End S.
+
+(* non-vacuity: a tree using every constructor satisfies the hypotheses (the theorem then
+   gives the value; cross-checked here by evaluating the parser inside Coq):
+   [ null,-12\t,0.5E+1,\n"a\né𐀀\uD800x\uD800",{ },{ "a" : 1 ,"b":[\r],"a":true}] *)
+Definition ex_tree : stx :=
+  SArr [] [([32], SLit LNull, []); ([], SNum (mknum true [49;50] None None), [9]);
+           ([], SNum (mknum false [48] (Some [53]) (Some (69, Some 43, [49]))), []);
+           ([10], SStr [CRaw 97; CEsc En; CUni 48 48 101 57; CUni 100 56 48 48; CUni 100 99 48 48; CUni 68 56 48 48; CRaw 120; CUni 68 56 48 48], []);
+           ([], SObj [32] [], []);
+           ([], SObj [] [([32], [CRaw 97], [32], [32], SNum (mknum false [49] None None), [32]);
+                         ([], [CRaw 98], [], [], SArr [13] [], []);
+                         ([], [CRaw 97], [], [], SLit LTrue, [])], [])].
+Lemma parse_valid_example :
+  wf_stx ex_tree /\ Z.of_nat (nest ex_tree) < 3 /\ ints_in_range ex_tree = true /\ names_nul_free ex_tree = true /\
+  value (fun _ => 7) ex_tree =
+    JArr [JNull; JInt (-12); JDouble 7 (Some [48;46;53;69;43;49]);
+          JStr [97;10;195;169;240;144;128;128;239;191;189;120;239;191;189]; JObj [];
+          JObj [([97], JBool true); ([98], JArr [])]] /\
+  match tok_new 3 true false false with
+  | Some t => match parse_ex_cstr (fun _ => 7) t (render_doc [32] ex_tree [10]) with
+              | PR t' (Some v) => v = value (fun _ => 7) ex_tree /\ err t' = TE_success
+              | _ => False end
+  | None => False end.
+Proof. repeat split; vm_compute; reflexivity. Qed.
